@@ -270,6 +270,13 @@ func TestC19(t *testing.T) {
 					r.Violation(key, []string{"stored_copy_aliases_argument"}, map[string]any{"kind": kind, "history": hist}, "C19: appending to the caller's message changed the copy held by the replayer")
 					bad = true
 				}
+				// and the other way round: appending to the copy Put returned leaves the caller's message alone
+				got.AppendData("copy-side" + strconv.Itoa(k))
+				rets[len(rets)-1].enc = got.String()
+				if pool[q].Msg.String() != enc[q] {
+					r.Violation(key, []string{"returned_copy_aliases_argument"}, map[string]any{"kind": kind, "history": hist, "before": fw.Q(fw.Trunc(enc[q], 300)), "after": fw.Q(fw.Trunc(pool[q].Msg.String(), 300))}, "C19: appending to the message returned by Put changed the caller's message")
+					bad = true
+				}
 			}
 		}
 		if auto && !bad {
